@@ -26,6 +26,11 @@ def replay_case(arg):
     key = digest(rec)
     rng = np.random.default_rng([seed, int(key, 16) % (2 ** 31)])
     kind, n, p, q = rec['kind'], rec['n'], rec['p'], rec['q']
+    mag = rec.get('magnitude', 'unit')
+    if mag != 'unit':
+        feats.append('magnitude_' + mag)
+        cnt['extreme_magnitude_or_long'] = 1
+        n = 300 if mag.startswith('long') else 3
     em = probes.error_model(kind)
     for rep in range(reps):
         par = []
@@ -33,11 +38,17 @@ def replay_case(arg):
             par.append({'pos': round(float(rng.uniform(0.2, 1.5)), 3), 'zero': 0.0,
                         'neg': -round(float(rng.uniform(0.2, 1.5)), 3)}[s])
         mo = np.round(rng.uniform(0.5, 3.0, size=n), 3)
+        if mag.endswith('large'):
+            mo = mo * 1e3
+            par = [v * 50.0 for v in par] if kind == 'G' else par
+        elif mag.endswith('small'):
+            mo = mo * 1e-3
+            par = [v * 1e-2 for v in par] if kind in ('G', 'C') else par
         if rec['outsign'] == 'somezero':
             mo[int(rng.integers(n))] = 0.0
         elif rec['outsign'] == 'someneg':
             mo[int(rng.integers(n))] = -round(float(rng.uniform(0.2, 1.5)), 3)
-        obs = np.round(rng.uniform(0.5, 3.0, size=n), 3)
+        obs = np.round(rng.uniform(0.5, 3.0, size=n), 3) * (1e3 if mag.endswith('large') else 1e-3 if mag.endswith('small') else 1.0)
         S = np.round(rng.uniform(-1, 1, size=(n, p)), 3)
         par_in, mo_in, obs_in, S_in = np.array(par), mo.copy(), obs.copy(), S.copy()
         with warnings.catch_warnings():
